@@ -12,14 +12,14 @@ import (
 const (
 	ClsDOC     = "DOC"
 	ClsCFG     = "CFG"
-	ClsUSER    = "USER"   // user function values / user values
-	ClsEXT     = "EXT"    // result of a library call
-	ClsGLOBAL  = "GLOBAL" // storage of a package-level variable
-	ClsINIT    = "INIT"   // allocated by package initialisation
-	ClsPOOL    = "POOL"   // allocated by a sync.Pool constructor
-	ClsEVAL    = "EVAL"   // allocated during evaluation only
-	ClsPARSE   = "PARSE"  // allocated during Parse only
-	ClsMIXED   = "MIXED"  // allocation site reachable in both phases
+	ClsUSER    = "USER"    // user function values / user values
+	ClsEXT     = "EXT"     // result of a library call
+	ClsGLOBAL  = "GLOBAL"  // storage of a package-level variable
+	ClsINIT    = "INIT"    // allocated by package initialisation
+	ClsPOOL    = "POOL"    // allocated by a sync.Pool constructor
+	ClsEVAL    = "EVAL"    // allocated during evaluation only
+	ClsPARSE   = "PARSE"   // allocated during Parse only
+	ClsMIXED   = "MIXED"   // allocation site reachable in both phases
 	ClsUSERAPI = "USERAPI" // allocated in code only the user calls (Config setters, accessor closures)
 	ClsFUNC    = "FUNC"
 	ClsBOX     = "BOX"
